@@ -94,8 +94,11 @@ def spec(tier):
             "NOT a violation: scale_factors / MPS.__rmul__ / MPO.__rmul__ return a new list whose unscaled entries are the "
             "operand's tensor objects ('Returns a new list of factors where the tensor at the given index is scaled'; the "
             "MPS constructor documents that factors are not deep-copied), and a single-term _from_operator_repr result "
-            "holds one tensor object at several sites; every in-place MPS operation of the package rebinds list entries "
-            "instead of writing into tensors, so this sharing does not propagate. " + NOT_COVERED + ". Bounds of this "
+            "holds one tensor object at several sites; every in-place MPS operation of the package (apply, orthogonalize, "
+            "truncate) rebinds list entries instead of writing into tensors, so this sharing does not propagate between "
+            "states; the only tensor-level writes into matrix-product factors in emu_mps are hamiltonian.update_H on the "
+            "Hamiltonian MPO (C05) -- calling it on a scaled copy z * H would also change the unscaled factors of H, "
+            "which the package never does. " + NOT_COVERED + ". Bounds of this "
             "run: " + BOUNDS + "."),
         controls=CONTROLS, quick_controls=QUICK_CONTROLS, exhaustive=False,
         min_cases=dict(quick=MIN_CASES["quick"], thorough=MIN_CASES["thorough"]),
@@ -123,7 +126,7 @@ def spec(tier):
     )
 
 
-MIN_CASES = dict(quick=300, thorough=1500)
+MIN_CASES = dict(quick=1200, thorough=4000)
 
 
 def build(reg):
